@@ -376,7 +376,8 @@ Returns:
         if key == f.INDEPENDENT_VARIABLE:
             continue
         keys.append(key)
-        vals.append(filled(var[:]).ravel())
+        vals.append(
+            filled(var[:], getattr(var, 'missing_value', -999)).ravel())
 
     print(delim.join(keys), file=outfile)
     for row in array(vals).T:
